@@ -132,10 +132,53 @@ impl Engine for LiveEngine {
             }
             clients.push(ops);
         }
+        // slow-reader family (decided from a tape of its own so that the other families keep
+        // their seeds): a reader is parked between its extent pin and the end of its device read
+        // while the key is overwritten and flushed; the retirement the flusher has to postpone
+        // must still happen within the bound once the reader has left
+        let mut r = Tape::fresh(mix(seed, 0x51EAD));
+        let slow_reader = r.chance(1, 6);
+        let (sim, store, keys, clients) = if slow_reader {
+            let sim = SimConfig {
+                strategy: Strategy::Starve(3), // thread 3 = first client (root, worker, coordinator before it)
+                hold_sites: vec!["read.after_pread".to_string(), "read.before_pin".to_string()][..1 + r.below(2) as usize].to_vec(),
+                hold_steps: *r.pick(&[150u64, 400, 1200]),
+                tick_ns: *r.pick(&[20_000u64, 100_000]),
+                shards: 1,
+                workers: 1,
+                hash_seed: r.u64(),
+                max_steps: 3_000_000,
+                ..SimConfig::default()
+            };
+            let store = StoreCfg { cache: false, ttl: false, data_blocks: 128, format: *r.pick(&[3u32, 3, 2]), ..store };
+            let keys: Vec<Vec<u8>> = (0..4).map(|i| format!("lk{i:03}").into_bytes()).collect();
+            let big = 3000 + r.below(9000) as usize;
+            let reader = vec![
+                Op::Insert { key: 0, val: Val { len: big, kind: ValKind::Plain }, ts: Ts::Auto, ttl: 0, bytes: r.chance(1, 2) },
+                Op::Advance { ns: 400_000_000 },
+                Op::Get { key: 0, bytes: r.chance(1, 2) },
+                Op::Get { key: 0, bytes: false },
+            ];
+            let mut writer = vec![Op::Advance { ns: 400_000_000 + r.below(3) as u64 * 10_000_000 }];
+            let rounds = 40 + r.below(80);
+            for i in 0..rounds {
+                let key = if i % 7 == 0 { 0 } else { 1 + (i as usize % 3) };
+                writer.push(if i % 11 == 5 {
+                    Op::Delete { key, ts: Ts::Auto }
+                } else {
+                    Op::Insert { key, val: Val { len: gen_len(&mut r, 3), kind: ValKind::Plain }, ts: Ts::Auto, ttl: 0, bytes: r.chance(1, 2) }
+                });
+                writer.push(Op::Advance { ns: *r.pick(&[5_000_000u64, 20_000_000, 40_000_000]) });
+            }
+            (sim, store, keys, vec![reader, writer])
+        } else {
+            (sim, store, keys, clients)
+        };
         let mut knobs = BTreeMap::new();
-        knobs.insert("steady".into(), steady as i64);
-        knobs.insert("burst".into(), burst as i64);
-        knobs.insert("hot".into(), hot as i64);
+        knobs.insert("slow_reader".into(), slow_reader as i64);
+        knobs.insert("steady".into(), (steady && !slow_reader) as i64);
+        knobs.insert("burst".into(), (burst && !slow_reader) as i64);
+        knobs.insert("hot".into(), (hot && !slow_reader) as i64);
         let _ = property;
         Scenario {
             engine: "live".into(),
@@ -164,9 +207,11 @@ impl Engine for LiveEngine {
         report.count(&format!("cfg.shards{}_workers{}", store.verif_shard_counts().len(), store.verif_worker_count()), 1);
         let changes: Arc<Mutex<Vec<Change>>> = Arc::new(Mutex::new(Vec::new()));
         let done: Arc<Mutex<usize>> = Arc::new(Mutex::new(0));
+        // (instant the last read returned, reads done, first read failure)
+        let reads: Arc<Mutex<(u64, u64, Option<String>)>> = Arc::new(Mutex::new((0, 0, None)));
         let mut handles = Vec::new();
         for (ci, ops) in sc.clients.iter().enumerate() {
-            let (sim2, store2, keys2, ops2, ch2, done2, cfg2) = (
+            let (sim2, store2, keys2, ops2, ch2, done2, cfg2, reads2) = (
                 Arc::clone(sim),
                 Arc::clone(&store),
                 sc.keys.clone(),
@@ -174,10 +219,11 @@ impl Engine for LiveEngine {
                 Arc::clone(&changes),
                 Arc::clone(&done),
                 sc.store.clone(),
+                Arc::clone(&reads),
             );
             feoxdb::verif::thread::name_next_spawn("client");
             handles.push(feoxdb::verif::thread::spawn(move || {
-                client(&sim2, &store2, &cfg2, &keys2, &ops2, ci as u8, &ch2);
+                client(&sim2, &store2, &cfg2, &keys2, &ops2, ci as u8, &ch2, &reads2);
                 *done2.lock().unwrap() += 1;
             }));
         }
@@ -223,6 +269,14 @@ impl Engine for LiveEngine {
         }
         let log = changes.lock().unwrap().clone();
         report.ops = log.len() as u64;
+        let (last_read_done, reads_done, read_failure) = reads.lock().unwrap().clone();
+        if sc.knob("slow_reader", 0) == 1 {
+            report.count("slow_reader_runs", 1);
+            report.count("slow_reader_reads", reads_done);
+        }
+        if let Some(why) = read_failure {
+            report.fail("read-error", why);
+        }
         report.count("periodic_window_checks", periodic_checks);
         let shards_hit: std::collections::BTreeSet<usize> = log.iter().filter_map(|c| store.verif_shard_of(&c.key)).collect();
         report.count("shards_receiving_entries", shards_hit.len() as u64);
@@ -245,7 +299,9 @@ impl Engine for LiveEngine {
         }
         if report.violation.is_none() && !log.is_empty() {
             // (2) after the retirement bound nothing superseded is left behind
-            let t_last = log.iter().map(|c| c.at).max().unwrap();
+            // a reader may hold an extent for as long as its read takes: the bound runs from the
+            // later of the last modification and the return of the last read
+            let t_last = log.iter().map(|c| c.at).max().unwrap().max(last_read_done);
             let wait = (t_last + RETIRE_BOUND_NS).saturating_sub(sim.now_mono());
             sim.sleep(Duration::from_nanos(wait));
             let pending = store.verif_retirements_pending();
@@ -286,7 +342,17 @@ impl Engine for LiveEngine {
     }
 }
 
-fn client(sim: &Arc<Sim>, store: &FeoxStore, cfg: &StoreCfg, keys: &[Vec<u8>], ops: &[Op], writer: u8, changes: &Mutex<Vec<Change>>) {
+#[allow(clippy::too_many_arguments)]
+fn client(
+    sim: &Arc<Sim>,
+    store: &FeoxStore,
+    cfg: &StoreCfg,
+    keys: &[Vec<u8>],
+    ops: &[Op],
+    writer: u8,
+    changes: &Mutex<Vec<Change>>,
+    reads: &Mutex<(u64, u64, Option<String>)>,
+) {
     let mut counter = 0u32;
     let _ = cfg;
     for op in ops {
@@ -307,6 +373,27 @@ fn client(sim: &Arc<Sim>, store: &FeoxStore, cfg: &StoreCfg, keys: &[Vec<u8>], o
                     if let Some(vk) = store.verif_key(k) {
                         changes.lock().unwrap().push(Change { at: sim.now_mono(), key: k.clone(), state: Some(Gen { value: v, ts: vk.timestamp, expiry: vk.expiry }) });
                     }
+                }
+            }
+            Op::Get { key, bytes } => {
+                let k = &keys[*key];
+                sim.op_begin("get");
+                let r = if *bytes { store.get_bytes(k).map(|b| b.to_vec()) } else { store.get(k) };
+                sim.op_end();
+                let mut g = reads.lock().unwrap();
+                g.0 = g.0.max(sim.now_mono());
+                g.1 += 1;
+                match r {
+                    Ok(v) => {
+                        // every value of these runs identifies its key: a read may be old, never foreign
+                        match harness::value_is_self_consistent(&v) {
+                            Some((kid, _, _)) if kid == *key => {}
+                            _ if v.len() < 11 => {} // too short to carry its identity (counters, tiny values)
+                            other => g.2 = Some(format!("get({}) returned {} bytes that are not a value written to this key ({other:?})", show(k), v.len())),
+                        }
+                    }
+                    Err(feoxdb::FeoxError::KeyNotFound) | Err(feoxdb::FeoxError::StaleExtent) => {}
+                    Err(e) => g.2 = Some(format!("get({}) failed with {e:?}", show(k))),
                 }
             }
             Op::Delete { key, .. } => {
